@@ -40,10 +40,11 @@ LEVEL = "model_checking"
 INVS = ("InvNothingBeforeEvaluate InvAtMostOncePerNode InvExactlyOnceNeeded InvCountIsDone InvValueIsEval InvGraphIsOK "
         "InvLazyTypeOK InvLDoneOnlyNeeded InvNoCallAfterEvaluate InvBuiltDefined InvMutantsRejected InvReusedNeedNoCall")
 BCFG = """SPECIFICATION LBSpec
-CONSTANTS N = {n} Rich = {rich} Shard = 0 NShards = 1 MaxEv = {maxev} AllKw = {allkw} MaxHandles = {maxh}
+CONSTANTS N = {n} Rich = {rich} Shard = {shard} NShards = {nshards} MaxEv = {maxev} AllKw = {allkw} MaxHandles = {maxh}
+  Modes = {modes}
 INVARIANT """ + INVS + "\n"
 UCFG = """SPECIFICATION LUSpec
-CONSTANTS N = {n} Rich = {rich} Shard = 0 NShards = 1 MaxEv = 2 AllKw = FALSE MaxHandles = 1
+CONSTANTS N = {n} Rich = {rich} Shard = 0 NShards = 1 MaxEv = 2 AllKw = FALSE MaxHandles = 1 Modes = {{"call", "full"}}
 INVARIANT InvRefGraphOK InvDepEdgesStatic LEmit
 """
 # invariants re-checked on the states TLC reaches while explaining real behaviour (the action guards decide acceptance)
@@ -399,6 +400,16 @@ def count_cases(ctx: Ctx, traces: list[dict]) -> None:
             i = j
 
 
+def tlc_job(module: str, cfg: str, workdir, **kw):
+    """run_tlc, repeated once when the JVM was killed from outside (exit -9: the kernel's OOM killer on a shared machine)."""
+    try:
+        return run_tlc(module, cfg, workdir, **kw)
+    except MachineryError as ex:
+        if "TLC exit -9" not in str(ex):
+            raise
+        return run_tlc(module, cfg, workdir, **kw)
+
+
 def windowed(procs, fn, args: list, window: int) -> Iterator[list[dict]]:
     """Results of fn over args, in order, produced by the worker processes window by window (bounded memory: the workers
     do not run ahead of validation by more than one window)."""
@@ -488,13 +499,17 @@ def run(ctx: Ctx) -> None:
                        "handle of the block is a stated don't-care (memo/Reused in PipelineLazy.tla)"]
     # worker processes first (fork before any thread exists), then the model-checking runs in background threads
     procs = multiprocessing.get_context("fork").Pool(4 if quick else 10)
-    pool = ThreadPoolExecutor(max_workers=6)
+    pool = ThreadPoolExecutor(max_workers=8)
     mc_jobs = []
     try:
-        def mc(what: str, wd: str, workers: int, heap: str = "3g", **consts) -> None:
-            mc_jobs.append((what + " (deadlock checking on)", pool.submit(
-                run_tlc, "MC_PipelineLazy", BCFG.format(**consts), ctx.workdir(wd), workers=workers, deadlock=True,
-                allow_violation=False, timeout=6000, heap=heap)))
+        both = '{"call", "full"}'
+
+        def mc(what: str, wd: str, workers: int, heap: str = "3g", nshards: int = 1, modes: str = both, **consts) -> None:
+            for sh in range(nshards):
+                label = what + (f" shard {sh + 1}/{nshards}" if nshards > 1 else "") + " (deadlock checking on)"
+                mc_jobs.append((label, pool.submit(
+                    tlc_job, "MC_PipelineLazy", BCFG.format(shard=sh, nshards=nshards, modes=modes, **consts),
+                    ctx.workdir(f"{wd}_{sh}"), workers=workers, deadlock=True, allow_violation=False, timeout=6000, heap=heap)))
 
         if quick:
             mc("LBSpec N=2, all keyword sets", "b2", 4, n=2, rich="FALSE", maxev=2, allkw="TRUE", maxh=1)
@@ -505,10 +520,11 @@ def run(ctx: Ctx) -> None:
             mc("LBSpec N=2 rich, all keyword sets, 3 evaluates", "b2r", 3, n=2, rich="TRUE", maxev=3, allkw="TRUE", maxh=1)
             mc("LBSpec N=2 rich, valid cuts, 2 handles per construct_dag block", "b2s", 3, n=2, rich="TRUE", maxev=2,
                allkw="FALSE", maxh=2)
-            mc("LBSpec N=3, valid cuts", "b3", 6, heap="4g", n=3, rich="FALSE", maxev=2, allkw="FALSE", maxh=1)
+            mc("LBSpec N=3, valid cuts, pipeline()/run()/func() convention", "b3", 2, heap="2g", nshards=3, modes='{"call"}',
+               n=3, rich="FALSE", maxev=2, allkw="FALSE", maxh=1)
             exports = [("LUSpec N=2 rich", dict(n=2, rich="TRUE"), "u2r", "3g", "full"),
                        ("LUSpec N=3", dict(n=3, rich="FALSE"), "u3", "3g", "lean")]
-        exp_jobs = [(what, scheme, pool.submit(run_tlc, "MC_PipelineLazy", UCFG.format(**consts), ctx.workdir(wd), workers=2,
+        exp_jobs = [(what, scheme, pool.submit(tlc_job, "MC_PipelineLazy", UCFG.format(**consts), ctx.workdir(wd), workers=2,
                                                allow_violation=False, timeout=6000, heap=heap))
                     for what, consts, wd, heap, scheme in exports]
         kept: list[dict] = []
